@@ -41,6 +41,11 @@ def units(tier):
         for rep in pools.REPS:
             for y in A.Y_S:
                 us.append(("far", kind, rep, y))
+    # the same additions in mode A, then B, then A again within one process
+    for a in A.KINDS:
+        for b in A.KINDS:
+            if a != b:
+                us.append(("switch", a, b))
     # expanded years
     for rep in pools.REPS:
         us.append(("cfg", "greg", rep, "whole", "z0", 0, A.Y_EXP, "small", "core"))
@@ -184,6 +189,17 @@ def _civil(kind, rep, inst, off):
 def run_unit(unit, ctx):
     u = unit[0]
     kind = unit[1]
+    if u == "switch":
+        for kx in (unit[1], unit[2], unit[1]):
+            impl.set_mode(A.MODE_OF[kx])
+            cx = M.cal(kx)
+            for rep in pools.REPS:
+                for pdesc in pools.point_descs(kx, rep, pools.T_WHOLE[:1] + pools.T_WHOLE[5:], pools.Z0,
+                                               [1999, 2000, 2004, 2005, 2020, 2021], "small"):
+                    ctx.state_count += 1
+                    check_point(ctx, kx, cx, pdesc, _durs("core"))
+        ctx.maximum("max_ticks_per_execution", impl.max_ticks_seen())
+        return
     impl.set_mode(A.MODE_OF[kind])
     c = M.cal(kind)
     if u == "cfg":
